@@ -100,7 +100,7 @@ public:
 	/**
 	Returns true if this has a parent directory and is not just a name
 	*/
-	bool hasDirectory() const { return name() == _path; }
+	bool hasDirectory() const { return name() != _path; }
 	/**
 	Removes double dots in a path by stepping up one directory each time.
 	*/
